@@ -441,7 +441,21 @@ def check_forwarding(ctx, fx, cfg):
             return None
         g, gb, t = hits[0]
         rs = roots(gb, t["args"][0]) if t["args"] else set()
-        ctx.require(all(r.kind in ("arg", "upvar") for r in rs), RULE, inst + ":on-self@" + cfg, "%s acts on something else than its own handle" % fn_name, fn=fn_name, site=t["l"])
+
+        def own(r, depth=0):
+            if r.kind in ("arg", "upvar"):
+                return True
+            # an accessor of the handle itself (`self.as_addr()`): a crate function that hands back (part of) what it is given
+            if r.kind.startswith("call:") and depth < 2:
+                acc = fx.fn(r.kind[5:])
+                if acc is not None and not acc.get("is_async") and acc["kind"] in ("fn", "assoc_fn"):
+                    ab = ctx.body(fx, acc)
+                    ars = roots(ab, {"k": "move", "p": [0]})
+                    if ars and all(x.kind == "arg" for x in ars):
+                        ct = gb.blocks[r.site[0]]["t"]
+                        return bool(ct.get("args")) and all(own(y, depth + 1) for a_ in ct["args"][:1] for y in roots(gb, a_))
+            return False
+        ctx.require(all(own(r) for r in rs), RULE, inst + ":on-self@" + cfg, "%s acts on something else than its own handle" % fn_name, fn=fn_name, site=t["l"])
         return g, gb, t
     h = one_call("addr::OwningAddr::<A>::join", "actor::spawner::actor_handle::ActorHandle::<A>::join", "join-forwards")
     if h:
